@@ -168,7 +168,14 @@ class C15:
         sk = seeks[0].term[2][0] if len(seeks[0].term[2]) == 1 else None
         fpv = seeks[0].term[1][1]
         frames_t = ("attr", fpv, "frames")
-        capped = sk is not None and sk[0] == "call" and sk[1] == ("builtin", "min") and set(sk[2]) == {offset, frames_t}
+        lens_ = {frames_t, ("call", ("builtin", "len"), (fpv,), ())}
+        capped = sk is not None and sk[0] == "call" and sk[1] in (("builtin", "min"), ("ext", "numpy.minimum")) and len(sk[2]) == 2 \
+            and offset in sk[2] and any(a in lens_ for a in sk[2])
+        if sk is not None and sk[0] == "ite" and sk[1][0] == "cmp" and sk[1][1] in ("lt", "le"):
+            # offset if offset < frames else frames (either orientation after canonicalisation)
+            a_, b_ = sk[1][2], sk[1][3]
+            if {a_, b_} <= ({offset} | lens_) and offset in (a_, b_) and {sk[2], sk[3]} <= ({offset} | lens_) and sk[2] == a_ and sk[3] == b_:
+                capped = True
         if capped:
             ctx.ok("R15.6", f"{file}:{seeks[0].lineno} load_audio", "seek position capped at the number of frames of the file")
         elif sk == offset:
